@@ -18,6 +18,8 @@ import (
 	"errors"
 	"fmt"
 	"net/url"
+	"strconv"
+	"strings"
 )
 
 import (
@@ -96,11 +98,37 @@ func checkSupportCompress(acceptEncoding string) bool {
 }
 
 func checkSupportGzipCompress(acceptEncoding string) bool {
-	return bfe_http.HasToken(acceptEncoding, EncodeGzip)
+	return checkAcceptEncoding(acceptEncoding, EncodeGzip)
 }
 
 func checkSupportBrotliCompress(acceptEncoding string) bool {
-	return bfe_http.HasToken(acceptEncoding, EncodeBrotli)
+	return checkAcceptEncoding(acceptEncoding, EncodeBrotli)
+}
+
+// checkAcceptEncoding reports whether the content-coding is listed in the Accept-Encoding
+// header with a non-zero weight (RFC 7231 section 5.3.4), eg. "gzip", "gzip;q=0.8".
+// A weight of zero ("gzip;q=0", "gzip ;q=0") means the coding is not acceptable.
+func checkAcceptEncoding(acceptEncoding string, encoding string) bool {
+	for _, item := range strings.Split(acceptEncoding, ",") {
+		params := strings.Split(item, ";")
+		if !strings.EqualFold(strings.TrimSpace(params[0]), encoding) {
+			continue
+		}
+
+		for _, param := range params[1:] {
+			param = strings.TrimSpace(param)
+			if len(param) < 2 || (param[0] != 'q' && param[0] != 'Q') || param[1] != '=' {
+				continue
+			}
+			weight, err := strconv.ParseFloat(strings.TrimSpace(param[2:]), 64)
+			if err != nil || !(weight > 0) {
+				return false
+			}
+		}
+		return true
+	}
+
+	return false
 }
 
 func (m *ModuleCompress) getCompressRule(req *bfe_basic.Request) (*compressRule, error) {
